@@ -212,11 +212,11 @@ func c07(c *q.Ctx) {
 		c.DecisionTable(f, []string{"state.(*State).verifyAutogenTxValid(p0,p1[#down].Transactions[])", "p1[#down].Transactions[].Coinbase"}, []string{"timerTx", "coinbase"}, "State.ImmediateVerifyTx|State.ImmediateVerifyAutoTx", "State.doTxInternal", exempt, "walk path")
 	}
 	if f := c.Fn(st + "(*State).verifyDAGTxs"); f != nil {
-		c.DecisionTable(f, []string{"state.(*State).verifyAutogenTxValid(p0,p2[])", "p2[].Coinbase", "(false == p4[p2[].Txid])"}, []string{"timerTx", "coinbase", "notInPool"}, "State.ImmediateVerifyTx|State.ImmediateVerifyAutoTx", "return", map[string]string{
-			"timerTx=false,coinbase=false,notInPool=false": "already verified when it was admitted to the pool",
-			"timerTx=true,coinbase=false,notInPool=false":  "already verified when it was admitted to the pool",
-			"timerTx=false,coinbase=true,notInPool=false":  "already verified when it was admitted to the pool",
-			"timerTx=true,coinbase=true,notInPool=false":   "already verified when it was admitted to the pool",
+		c.DecisionTable(f, []string{"state.(*State).verifyAutogenTxValid(p0,p2[])", "p2[].Coinbase", "p4[p2[].Txid]"}, []string{"timerTx", "coinbase", "inPool"}, "State.ImmediateVerifyTx|State.ImmediateVerifyAutoTx", "return", map[string]string{
+			"timerTx=false,coinbase=false,inPool=true": "already verified when it was admitted to the pool",
+			"timerTx=true,coinbase=false,inPool=true":  "already verified when it was admitted to the pool",
+			"timerTx=false,coinbase=true,inPool=true":  "already verified when it was admitted to the pool",
+			"timerTx=true,coinbase=true,inPool=true":   "already verified when it was admitted to the pool",
 		}, "play path", "(#i < len(p2))")
 	}
 }
